@@ -30,7 +30,7 @@ REQUIRED_MONITORS = ("json_schema.emit.post", "metaschema.checked", "required.ch
 ASSUMPTIONS = [
     "'a Literal becomes a pattern accepting exactly its members' is read with re.fullmatch (JSON-schema `pattern` is "
     "an unanchored search; the emitted form `a|b` is pinned by the mock schema and by the parser that splits on '|'); "
-    "evidence reports pattern_unanchored=true; Literal members are alphabetic words",
+    "evidence reports pattern_unanchored=true",
     "Literal members are compared as a set on the way back (the emitter sorts them)",
     "a None default of an Optional parameter cannot be written as a default that validates against its own (non-null) "
     "property schema; the emitter documents that it is 'inferred as null from the type' (the property is not "
@@ -88,9 +88,8 @@ def literal_members(typ):
     return list(ast.literal_eval(base[len("Literal"):])) if base.startswith("Literal[") else None
 
 
-def _dev(P, ir, field, how, tk, dk, what, schema):
+def _dev(P, ir, field, how, tk, dk, what, schema, mech=None):
     generic = "json_schema.%s.%s" % (field, how)
-    mech = None
     key = (mech + "|" if mech else "") + generic + "|t=%s,d=%s" % (tk, dk)
     P.deviation(key, what, {"stream": CUR.get("stream"), "idx": CUR.get("idx"), "ir": ir, "schema": schema,
                             "field": field, "how": how})
@@ -158,8 +157,12 @@ def post_json_schema(intermediate_repr, result, OLD):
                 probes -= set(members)
                 accepted = sorted(q for q in probes if re.fullmatch(pat, q) is not None)
                 if rejected or accepted:
+                    # members are joined with '|' as they are: one that holds a regular-expression metacharacter (c++,
+                    # v1.0) changes what the pattern accepts - recorded finding, keyed to such members
+                    meta = any(re.search(r"[.^$*+?{}\[\]\\|()]", m) for m in members)
                     _dev(P, ir, "pattern", "not-exact", tk, dk, "%s: pattern %r rejects %r / accepts %r" % (
-                        name, pat, rejected, accepted), schema)
+                        name, pat, rejected, accepted), schema,
+                         mech="json_schema.literal-member-with-regex-metacharacter-joined-unescaped" if meta else None)
                 if prop.get("type") != "string":
                     _dev(P, ir, "pattern", "type-not-string", tk, dk, "%s: %r" % (name, prop), schema)
                 for m in members:
